@@ -30,8 +30,11 @@ package v2
 // also when it holds no object - for namespaced and for cluster-scoped parents alike.
 //@ func UniformObjectMap.Convert(m, parent) (res)
 //@   requires parent != nil && noNilChildren(m)
+//@   writes [C17,C03] fresh
 //@   safety C13,C03
 //@   invariant loop 1 [C03]: relativeObjects != nil && (forall g api.GroupVersionKind :: visited(1, g) ==> has(relativeObjects, g) && relativeObjects[g] != nil)
 //@   invariant loop 2 [C03]: relativeObjects != nil && (forall g api.GroupVersionKind :: has(m, g) ==> has(relativeObjects, g) && relativeObjects[g] != nil)
+//@   invariant loop 1 [C17,C03]: fresh(relativeObjects) && (forall g api.GroupVersionKind :: has(relativeObjects, g) ==> relativeObjects[g] == nil || fresh(relativeObjects[g]))
+//@   invariant loop 2 [C17,C03]: fresh(relativeObjects) && (forall g api.GroupVersionKind :: has(relativeObjects, g) ==> relativeObjects[g] == nil || fresh(relativeObjects[g]))
 //@   ensures [C03] res != nil
 //@   ensures [C03] forall g api.GroupVersionKind :: has(m, g) ==> has(res, g) && res[g] != nil
